@@ -180,7 +180,8 @@ fn jobs_sweep(tier: Tier) -> Vec<Job> {
             Tier::Quick => {
                 if n >= 2 {
                     let is_w = |t: usize| ["write", "setbal", "rwr", "store("].iter().any(|k| templates[t].label.contains(k));
-                    let deep = n == 2 && is_w(seq[0]) && seq[0] != seq[1];
+                    let is_r = |t: usize| ["read", "probe", "rwr", "halt", "static"].iter().any(|k| templates[t].label.contains(k));
+                    let deep = n == 2 && is_w(seq[0]) && seq[0] != seq[1] && is_r(seq[1]);
                     v.push(pipeline_job("c11-pc", &case, &RunCfg::parallel(2), COARSE, if deep { 2 } else { 1 }, false));
                 }
                 v.push(pipeline_job("c11-pc", &case, &RunCfg::sequential(), COARSE, 0, false));
